@@ -195,6 +195,7 @@ fn allowed_features() -> gen::problem::Features {
     let mut allowed = gen::problem::Features::all();
     allowed.req_breaks = false; // reserved-time model is not part of the reference oracle
     allowed.clustering = true; // the oracle judges bookkeeping and the time-independent rules of clustered tours
+    allowed.recharges = true;
     allowed
 }
 
